@@ -267,6 +267,21 @@ func (p *Pipe) Inject(b []byte, d time.Duration) int {
 	return InjTaken
 }
 
+// Handoff hands b to the receiver and returns as soon as it was taken (no barrier).
+func (p *Pipe) Handoff(b []byte, d time.Duration) int {
+	cp := append([]byte(nil), b...)
+	timer := time.NewTimer(d)
+	defer timer.Stop()
+	select {
+	case p.inj <- cp:
+		return InjTaken
+	case <-p.closedCh:
+		return InjNotTaken
+	case <-timer.C:
+		return InjNotTaken
+	}
+}
+
 func (p *Pipe) isClosedLocked() bool {
 	select {
 	case <-p.closedCh:
@@ -294,17 +309,17 @@ type DialFunc func(n int) (*Pipe, error)
 type Endpoint struct {
 	Addr string
 
-	mu       sync.Mutex
-	cv       *sync.Cond
-	dialFn   DialFunc
-	attempts []Attempt
-	acceptQ  chan acceptItem
-	lclosed  chan struct{}
-	lonce    sync.Once
-	listened bool
+	mu        sync.Mutex
+	cv        *sync.Cond
+	dialFn    DialFunc
+	attempts  []Attempt
+	acceptQ   chan acceptItem
+	lclosed   chan struct{}
+	lonce     sync.Once
+	listened  bool
 	listenErr error
-	opts     map[string]interface{}
-	pipeN    int
+	opts      map[string]interface{}
+	pipeN     int
 }
 
 type acceptItem struct {
@@ -441,7 +456,7 @@ func (d *tranDialer) Dial() (mangos.TranPipe, error) {
 }
 
 func (d *tranDialer) SetOption(n string, v interface{}) error { return d.e.setOption(n, v) }
-func (d *tranDialer) GetOption(n string) (interface{}, error)  { return d.e.getOption(n) }
+func (d *tranDialer) GetOption(n string) (interface{}, error) { return d.e.getOption(n) }
 
 func (e *Endpoint) setOption(n string, v interface{}) error {
 	switch n {
@@ -517,8 +532,8 @@ func (e *Endpoint) ListenerClosed() bool {
 }
 
 func (l *tranListener) SetOption(n string, v interface{}) error { return l.e.setOption(n, v) }
-func (l *tranListener) GetOption(n string) (interface{}, error)  { return l.e.getOption(n) }
-func (l *tranListener) Address() string                          { return l.e.Addr }
+func (l *tranListener) GetOption(n string) (interface{}, error) { return l.e.getOption(n) }
+func (l *tranListener) Address() string                         { return l.e.Addr }
 
 type vtTran struct{}
 
